@@ -265,6 +265,9 @@ func newHeaderLemma(c *Ctx, rule string) *headerLemma {
 		if k, isC := constInt(st.Val); isC && k >= 0 {
 			good = true
 		}
+		if nonNegCounter(st.Val, map[ssa.Value]bool{}) {
+			good = true
+		}
 		if !good {
 			bad("NumSignalCells is assigned something other than a non-negative constant or its own value plus a non-negative constant")
 		}
@@ -449,4 +452,32 @@ func (h *headerLemma) facts(a *Aff, fn *ssa.Function) []Con {
 		out = append(out, EQ(objFieldLen(a, r, h.cells), objFieldLen(a, r, h.sats))...)
 	}
 	return out
+}
+
+// nonNegCounter: v is a non-negative constant, or a phi / sum built only from
+// such constants and itself (a local counter that starts at >= 0 and is only
+// incremented by non-negative constants).
+func nonNegCounter(v ssa.Value, seen map[ssa.Value]bool) bool {
+	if seen[v] {
+		return true // coinductive: a cycle through phis adds nothing negative
+	}
+	seen[v] = true
+	switch x := v.(type) {
+	case *ssa.Const:
+		k, ok := constInt(x)
+		return ok && k >= 0
+	case *ssa.Phi:
+		for _, e := range x.Edges {
+			if !nonNegCounter(e, seen) {
+				return false
+			}
+		}
+		return true
+	case *ssa.BinOp:
+		if x.Op != token.ADD || !isInteger(x.Type()) {
+			return false
+		}
+		return nonNegCounter(x.X, seen) && nonNegCounter(x.Y, seen)
+	}
+	return false
 }
